@@ -317,18 +317,46 @@ def work(item):
                 st.violation("null-crystal-noerror:" + fn, dict(fn=fn, args=[a for a in args if a is not None]), "error", None)
         return st
 
-    def prop(st, cellatoms, h, k, l, E, debye, rel):
+    coll = dict(arr=None, n=0)
+
+    def prop(st, cellatoms, h, k, l, E, debye, rel, via):
         cell, atoms = cellatoms
         cs = env.make(b"gen", cell, atoms)
         cp = byref(cs)
+        got = None
+        if via < 600:
+            # "user supplied" also means: handed to a user-owned collection and looked up again.  The collection must store the recomputed
+            # volume (the struct is handed over with a stale one) and return the same geometry; names land before, between and after the others
+            if coll["arr"] is None or coll["n"] >= 40:
+                if coll["arr"] is not None:
+                    L.fn["Crystal_ArrayFree"](coll["arr"])
+                coll["arr"], _ = L.call("Crystal_ArrayInit", 3)
+                coll["n"] = 0
+            coll["n"] += 1
+            nm = ("%03d_g%d" % (via, coll["n"])).encode()
+            vtrue = cs.volume
+            cs.name = nm
+            cs.volume = -7.0
+            rv, err = L.call("Crystal_AddCrystal", cp, coll["arr"])
+            cs.volume = vtrue
+            if rv != 1:
+                return ("collection:add-rejected", dict(describe(cs)), "1", dict(rv=rv, error=err))
+            got, err = L.call("Crystal_GetCrystal", nm, coll["arr"])
+            if not got:
+                return ("collection:lookup-failed", dict(describe(cs)), "entry", err)
+            st.cls("through_collection")
+            cp = got
         r = check_geometry(st, env, cp, (h, k, l), E, False)
+        if got:
+            L.fn["Crystal_Free"](got)
+            cp = byref(cs)
         if r:
             return r
         r = check_structure_factor(st, env, cp, (h, k, l), E, debye, rel, False)
         if r is None:
             st.sample("generated", dict(cell=list(cell), natoms=len(atoms), hkl=[h, k, l], E=E), cap=2)
         return r
-    kk = hyp.run_property(st, "generated", dict(cellatoms=cell_strategy(), h=MILLER, k=MILLER, l=MILLER, E=E_ST, debye=DEBYE, rel=REL), prop, n, sv)
+    kk = hyp.run_property(st, "generated", dict(cellatoms=cell_strategy(), h=MILLER, k=MILLER, l=MILLER, E=E_ST, debye=DEBYE, rel=REL, via=hs.integers(0, 999)), prop, n, sv)
     st.cls("examples_generated", kk)
     return st
 
